@@ -2,7 +2,7 @@
 import itertools
 
 import wire
-from vlib import Case
+from vlib import Case, lang_lines
 
 # every case of this module is a direct operator / builtin / codec application whose size the oracle computes:
 # a "capacity overflow" panic is never excused here
@@ -33,6 +33,8 @@ def nontrivial(c):
 
 
 def classify(c):
+    if c.line.startswith("eval "):
+        return "map-literal " + (c.extra or {}).get("keys", "?")
     return c.line.split(" ")[0]
 
 
@@ -55,9 +57,31 @@ def judge(c):
     return None
 
 
+# map LITERALS are sequences of inserts too: a later pair with an == key overwrites the earlier one; then indexing, get and
+# contains on every spelling of the key, and insert's return value
+LIT_KEYS = [("1", "1.0"), ("0.0", "-0.0"), ("\"k\"", "\"k\""), ("[0.0, 1]", "[-0.0, 1.0]"), ("'c'", "'c'"), ("byte(7)", "byte(7)"), ("true", "true"), ("null", "null"),
+            ("2", "4 / 2.0"), ("[1, [2]]", "[1.0, [2.0]]"), ("-1", "0 - 1"), ("1", "2")]
+
+
+def literal_programs():
+    out = []
+    for k1, k2 in LIT_KEYS:
+        body = ["let obs = [];", f"let m = map {{{k1}: \"first\", 5: \"five\", {k2}: \"second\"}};",
+                f"push(obs, m[{k1}]);", f"push(obs, m[{k2}]);", f"push(obs, get(m, {k1}));", f"push(obs, contains(m, {k2}));", "push(obs, len(m));",
+                f"push(obs, insert(m, {k1}, \"third\"));", f"push(obs, m[{k2}]);", "push(obs, len(m));",
+                f"let e = map {{}}; e[{k1}] = 1; e[{k2}] = 2; push(obs, [len(e), e[{k1}]]);",
+                f"let neg = map {{-1: \"a\", -7: \"b\"}}; push(obs, [neg[-1], neg[0 - 7], get(neg, -1)]); neg[-3] = \"c\"; push(obs, neg[-3]);",
+                "0"]
+        out.append((k1 + " / " + k2, "\n".join(body) + "\n"))
+    return out
+
+
 def cases(ctx):
     out = []
     rng = ctx.rng
+    progs = literal_programs()
+    for (k, src), line in zip(progs, lang_lines(ctx, [p[1] for p in progs])):
+        out.append(Case(line, ("map-literal",), extra={"src": src, "keys": k}))
     allk = KEYS + INVALID
     for x, y in itertools.product(allk, allk):
         out.append(Case(f"eqhash {x} {y}", ("pair-eqhash",)))
